@@ -6,6 +6,7 @@ CONSTANTS
   SlotType <- MCSlotType3
   MaxExplicit = 1
   Policy <- PolicyAny
+  Layout = "multi"
   MemberTypes <- MembersNone
   MaxBirths = 2
 INVARIANTS TypeOK Conservation AliveIffReferenced NoDangling StaticTypes DestroyedExactlyOnce
